@@ -800,7 +800,7 @@ Fixpoint hedge_innermost (stack : list policy) : bool :=
   end.
 
 (* a fresh execution starting at [now] on the given policy instances *)
-Definition fresh_world (now : Z) (ext : option (Z * err)) (key : ctxkey)
+Definition fresh_world0 (now : Z) (ext : option (Z * err)) (key : ctxkey)
     (b : list (bcfg * bstate (S := stats))) (l : list (lcfg * Z * lstate)) (k : list (Z * Z)) (c : list (list (Z * Z)))
     (script : list fn_step) : world :=
   {| w_now := now; w_start := now; w_attempts := 1; w_retries := 0; w_executions := 0; w_hedges := 0; w_cell := None; w_seq := 0;
@@ -808,3 +808,14 @@ Definition fresh_world (now : Z) (ext : option (Z * err)) (key : ctxkey)
      w_ext := ext; w_ctxkey := key; w_breakers := b; w_limiters := l; w_bulkheads := k; w_caches := c;
      w_retry := []; w_script := script; w_trace := [];
      w_bg := []; w_hs := {| hs_grp := 0; hs_max := 0; hs_cond := []; hs_count := 0; hs_sent := false; hs_acc := None |}; w_oof := false |}.
+
+(* a caller's context that is already done when the execution is started (cancelled beforehand, deadline in the past) is done
+   from the first instant on: every check of the execution sees it, the first one included *)
+Definition fresh_world (now : Z) (ext : option (Z * err)) (key : ctxkey)
+    (b : list (bcfg * bstate (S := stats))) (l : list (lcfg * Z * lstate)) (k : list (Z * Z)) (c : list (list (Z * Z)))
+    (script : list fn_step) : world :=
+  let w := fresh_world0 now ext key b l k c script in
+  match ext with
+  | Some (t, e) => if t <=? now then fire_ext w e else w
+  | None => w
+  end.
